@@ -273,7 +273,8 @@ def relational(case, rng, ctx):
         return []
     s2['tie'] = t
     blt2 = gen.render(s2)
-    run2 = do_count(blt2, case.opts, budget=stream.budget_for(ctx), render=True)
+    run2 = do_count(blt2, case.opts, budget=stream.budget_for(ctx), render=True,
+                    election_args=stream.election_args(getattr(case, 'entry', 'dict'), case.opts))      # same way in as the first count
     if run2.timed_out or run2.error is not None or run.report is None:
         ctx.count('pair_not_comparable')
         return []
@@ -325,7 +326,8 @@ def replay(case):
         return []
     res = [(k, m) for k, m, _ in check(run)[0]]
     if case.get('blt2') and run.error is None:
-        run2 = do_count(case['blt2'], case['options'], budget=60.0, render=True)
+        run2 = do_count(case['blt2'], case['options'], budget=60.0, render=True,
+                        election_args=stream.election_args(case.get('entry', 'dict'), case['options']))
         if run2.error is None and not run2.timed_out:
             if [e.astuple() for e in run.events] != [e.astuple() for e in run2.events] or run.report != run2.report \
                     or run.dump != run2.dump or strip_tie(run.json) != strip_tie(run2.json):
